@@ -5,6 +5,13 @@ real OpenFlow codec over byte pipes, a loop-free cabling between them (pvf.sim.n
 virtual clock.  A case is a configuration plus a history of small ops (frame, burst, move, advance) that is
 interpreted against the real code and against pvf.ref.bridge (one ideal bridge per switch + an upper bound on
 what the flow cache may still hold) in lock-step.  Every frame that enters a switch is one judged hop.
+
+How the network comes into being is part of the case: without a "bringup" field the switches connect one after the
+other; with it, a schedule of small steps (connect switch i, move the bytes waiting in one direction of its control
+connection, one select round over all connections, drop connection i) orders and interleaves their OpenFlow
+handshakes, switches marked late are powered only at a "join" op in the middle of the history, and whatever the
+schedule leaves unfinished is completed.  The oracle does not look at the handshake: once the control channels are
+quiet every powered switch is part of "the network of switches controlled by the component" and its frames are judged.
 """
 import itertools
 import struct
@@ -21,7 +28,9 @@ TECHNIQUE = ("model-based testing of histories: the real controller component, c
 LEVEL_TEXT = ("Exploration by generated histories: every history of at most 3 (quick) / 4 (thorough) operations over 3 hosts on "
               "one switch is enumerated under four configurations, and Hypothesis draws longer histories (to 60 / 200 operations) "
               "over 2-5 hosts on 1-3 switches with host moves, back-to-back bursts, timeout gaps, buffer pools 0/1/100 and "
-              "several miss_send_len values. The composition has unbounded state (address tables, cached flows, outstanding "
+              "several miss_send_len values; the order in which the switches' OpenFlow handshakes run (one after the other, "
+              "interleaved half-turn by half-turn, connections dropped in mid-handshake or after it and made again, switches "
+              "joining after traffic) is enumerated for two and three switches and drawn as part of the random histories. The composition has unbounded state (address tables, cached flows, outstanding "
               "buffers), so bounded enumeration plus random search with shrinking is the strongest level this technique gives; "
               "no absence claim beyond the enumerated bound.")
 LEVEL_NOTE = ("trusts the reference bridge (pvf/ref/bridge.py) and the harness-side observation 'the switch wrote to its control "
@@ -29,9 +38,13 @@ LEVEL_NOTE = ("trusts the reference bridge (pvf/ref/bridge.py) and the harness-s
               "re-serialises byte-identically (that identity is C14's subject)")
 RULE = ("a case is a configuration (tree of 1-3 switches, 2-5 hosts, transparent flag, buffer pool, miss_send_len) and a history "
         "of ops: frame(host, destination class, header template, size), burst(several frames before the control channel runs), "
-        "resend(k-th last frame, optionally reversed), move(host, free edge port), advance(k/8 s). Non-trivial: the history contains a move of a host that had already sent, "
+        "resend(k-th last frame, optionally reversed), move(host, free edge port), advance(k/8 s), join(late switches come up); "
+        "optionally a bring-up schedule of steps att(i, switch says HELLO first?), step(i) (next half-turn of connection i), "
+        "c2s(i)/s2c(i), turn (one select round), drop(i). Non-trivial: the history contains a move of a host that had already sent, "
         "or an advance of at least 10 s after a unicast flow was installed, followed by a frame addressed to the moved host / to a "
-        "known host; distinct by SHA-1 of the canonical JSON of the case")
+        "known host; or a frame is judged at a switch whose bring-up was contested (a second handshake began while the controller "
+        "had not yet read the BARRIER_REPLY of another one -- observed by the harness on the wire -- or a connection of that "
+        "phase was dropped in mid-handshake); distinct by SHA-1 of the canonical JSON of the case")
 ASSUMPTIONS = [
   "hold-down (_flood_delay) is 0 and the topology is loop-free, as the property's quantifier says",
   "all switch ports are up; 'every other port' therefore means every port of the switch except the ingress port",
@@ -40,6 +53,11 @@ ASSUMPTIONS = [
   "a frame that the switch forwards from its cache is not seen by the controller; when the controller later forwards by an "
   "address table that is stale for that reason and no flow is installed any more, that is judged a violation of 'exactly the "
   "most recent port' (own root-cause key: clause not-most-recent-port / learning-masked-by-cached-flow)",
+  "every switch of the network eventually has an open control connection on which nothing is lost: a bring-up schedule may "
+  "drop connections, but the runner reconnects every switch and lets all connections run to quiescence before frames are sent; "
+  "a switch that is not powered yet (late joiner) neither receives nor emits frames",
+  "a control connection is only dropped before the switch has carried traffic (a reconnect with cached flows but an empty "
+  "controller address table is outside what the statement's 'already seen' can be held against)",
   "miss_send_len >= 14 (the controller needs the Ethernet header); transparent=True forwards LLDP and 01:80:c2:00:00:0x as "
   "ordinary frames, which is what the option documents",
 ]
@@ -47,8 +65,14 @@ EXHAUSTIVE_SCOPE = {
   "quick": "all histories of length <= 3 over the 20-op alphabet (3 hosts on one 4-port switch: 12 unicast/broadcast/unknown "
            "frames (host 0 sends IPv4/UDP with ECN bits set, host 1 first fragments of IPv4/TCP with a DSCP, host 2 ARP with opcode 256; one frame whose source is the broadcast address), LLDP-type and 01:80:c2:00:00:00 frame, 3 moves, advance 12 s / 32 s) x 4 configurations "
            "(transparent, pool, miss_send_len) in {(F,100,128),(T,100,128),(F,0,128),(F,1,14)}; bursts of 16/25/40 back-to-back "
-           "broadcast frames and alternating known-unicast frames with payload sizes 96..132 under three buffer configurations",
-  "thorough": "as quick with length <= 4 and burst payload sizes 60..199",
+           "broadcast frames and alternating known-unicast frames with payload sizes 96..132 under three buffer configurations; "
+           "bring-up schedules, each followed by broadcast / reply / answer between a host on the first and one on the last switch of a chain: "
+           "all 3432 interleavings of the 7+7 half-turns of two switches' handshakes; for one and two switches every (a, b, drop none/0/1/both, c) "
+           "with a, b in 0..7 half-turns done before the drop and c in 0..3 after it, switch-HELLO-first and controller-HELLO-first; for three "
+           "switches every sequence of at most 3 of {connect 0, connect 1 (HELLO first), connect 2, select round, drop 0, drop 1, drop 2}; "
+           "two of three switches joining after a first broadcast with all 20 interleavings of their first 3+3 half-turns",
+  "thorough": "as quick with length <= 4, burst payload sizes 60..199, the two-switch interleavings also with the switches saying HELLO first "
+              "(924 more), three-switch sequences of at most 4",
 }
 
 _S = {}
@@ -251,14 +275,147 @@ def run_case(case):
     w.nexus.miss_send_len = msl
     w.core.registerNew(L.l2_learning, transparent)
     net = w.net
+    bu = case.get("bringup")
+    bst = {"overlap": False, "aborted": False, "dropped_up": False, "eager": False, "late": False, "phases": 0,
+           "contested": set()}
+    down = set()                 # switches that are not powered yet (late joiners)
+
+    def bring_up(ds, sched):
+      """Take the switches ds into service.  sched is a list of small steps that decide in which order the control
+      connections are made and their bytes move (what the controller's select loop and the network happen to do);
+      whatever is left when the list ends is completed: every switch gets a connection and all of them run to
+      quiescence.  Afterwards the data plane of these switches is live, whatever the controller made of it."""
+      import pox.datapaths.switch as SW
+      from ..sim import world as W
+      ds = sorted(ds)
+      links = {d: None for d in ds}
+      done = {}                                   # link -> the controller has read the switch's BARRIER_REPLY
+
+      def in_progress():
+        return [d for d in ds if links[d] is not None and not done[links[d]]]
+
+      def attach(d, eager):
+        se = w.switches[d]
+        se.sock = W.FakeSock("sw%x" % d)
+        se.worker = W._make_worker(se.sock)
+        se.conn = SW.OFConnection(se.worker)
+        se.sw.set_connection(se.conn)
+        lk = w.attach(se)                         # of_01.Connection on a fresh socket: sends its HELLO
+        w.links.remove(lk)                        # (bytes move only when the schedule says so)
+        se.link = links[d] = lk
+        done[lk] = False
+        if eager:
+          se.sw.send_hello(force=True)            # a switch that says HELLO first, as the specification asks
+          bst["eager"] = True
+        if len(in_progress()) > 1:
+          bst["overlap"] = True
+          bst["contested"].update(in_progress())
+
+      def c2s(d):
+        lk = links[d]
+        data = lk.csock.take_sent()
+        if data:
+          lk.bytes_to_switch += len(data)
+          w.switches[d].rx_bytes(data)
+        return bool(data)
+
+      def s2c(d):
+        lk = links[d]
+        data = w.switches[d].take_sent()
+        if not data:
+          return False
+        lk.bytes_to_controller += len(data)
+        off = 0
+        while off + 4 <= len(data):               # OpenFlow 1.0 header: version, type, length
+          if data[off + 1] == 19:
+            done[lk] = True
+          ln_ = (data[off + 2] << 8) | data[off + 3]
+          off += max(8, ln_)
+        lk.csock.feed(data)
+        for _ in range(10000):
+          if not lk.csock.inbox:
+            break
+          if lk.con.read() is False:              # what of_01's loop does with a connection it cannot read
+            lk.alive = False
+            lk.con.close()
+            break
+        return True
+
+      def drop(d):
+        """The switch's end of the TCP connection goes away; the controller's loop reads EOF and closes."""
+        lk = links[d]
+        if not done[lk]:
+          bst["aborted"] = True
+          bst["contested"].update(ds)
+        else:
+          bst["dropped_up"] = True
+        lk.csock.eof = True
+        if lk.con.read() is not False:
+          raise HarnessError("controller read something from a closed connection")
+        lk.con.close()
+        lk.alive = False
+        w.switches[d].link = links[d] = None
+
+      for s_ in (sched or []):
+        k = s_[0]
+        d = ds[s_[1] % len(ds)] if len(s_) > 1 else None
+        if k == "att":
+          if links[d] is None:
+            attach(d, bool(s_[2]) if len(s_) > 2 else False)
+        elif k == "step":                         # the next half-turn of this switch's conversation
+          if links[d] is None:
+            attach(d, False)
+          elif not c2s(d):
+            s2c(d)
+        elif k == "c2s":
+          if links[d] is not None:
+            c2s(d)
+        elif k == "s2c":
+          if links[d] is not None:
+            s2c(d)
+        elif k == "drop":
+          if links[d] is not None:
+            drop(d)
+        elif k == "turn":                         # one round of the select loop over every open connection
+          for d_ in ds:
+            if links[d_] is not None:
+              c2s(d_)
+              s2c(d_)
+        else:
+          raise HarnessError("bad bring-up step %r" % (s_,))
+      for d in ds:
+        if links[d] is None:
+          attach(d, False)
+      for d in ds:
+        w.links.append(links[d])
+        net.dead.discard(d)
+        down.discard(d)
+      w.settle()
+      bst["phases"] += 1
+      for d in ds:
+        lk = links[d]
+        sw = w.switches[d].sw
+        # (harness sanity only where the controller says the handshake is over; a switch that was not taken into
+        # service is judged by what happens to its frames)
+        if lk.con.connect_time is not None and sw.miss_send_len != msl:
+          raise HarnessError("switch %d has miss_send_len %r, wanted %r" % (d, sw.miss_send_len, msl))
+
     for d in range(1, n + 1):
-      net.add_switch(d, ports=P, expire=True, max_buffers=pool)
+      net.add_switch(d, ports=P, expire=True, max_buffers=pool, connect=False)
     for (a, ap, b, bp) in cables:
       net.cable(a, ap, b, bp)
-    for d in range(1, n + 1):
-      sw = w.switches[d].sw
-      if sw.miss_send_len != msl:
-        raise HarnessError("switch %d has miss_send_len %r, wanted %r" % (d, sw.miss_send_len, msl))
+    if bu is None:
+      for d in range(1, n + 1):             # one after the other, each handshake complete before the next connection
+        bring_up([d], [["att", 0, 1]])
+    else:
+      late = [bool(x) for x in (bu.get("late") or [])][:n]
+      late += [False] * (n - len(late))
+      if all(late):
+        late[0] = False                           # somebody is there from the start
+      down.update(d for d in range(1, n + 1) if late[d - 1])
+      if down:
+        bst["late"] = True
+      bring_up([d for d in range(1, n + 1) if d not in down], bu.get("sched"))
     models = {d: B.Bridge(range(1, P + 1), transparent) for d in range(1, n + 1)}
 
     # host placement: indices into the free edge list, constructive
@@ -307,7 +464,7 @@ def run_case(case):
           st_["nontrivial"] = True
         if st_["gap_after_flow"] and sent[d[1]]:
           st_["nontrivial"] = True
-      if not x_.get("gs"):
+      if not x_.get("gs") and where[h][0] not in down:
         sent[h] = True
       st_["frames"] += 1
       return raw, meta
@@ -326,6 +483,8 @@ def run_case(case):
           continue
         if hp["sw"] != meta["origin"][0]:
           st_["multi_hop"] = True
+        if hp["sw"] in bst["contested"]:
+          st_["contested_hop"] = True
         bad = [(p, x) for (p, x) in hp["outs"] if x != data and x != meta["canon"]]
         if bad:
           out.fail("frame-altered", "switch %d emitted altered bytes for frame %d on ports %r" % (
@@ -362,6 +521,8 @@ def run_case(case):
           out.fail("delivered-twice", "frame %d reached edge port %d.%d %d times" % (k[0], k[1], k[2], c))
       # the control channel must survive whatever the hosts send
       for d in range(1, n + 1):
+        if d in down:
+          continue
         lk = w.switches[d].link
         if (lk is None or not lk.alive or lk.con.disconnected) and not st_.get("lost"):
           st_["lost"] = True
@@ -481,6 +642,13 @@ def run_case(case):
         hops, host_rx, stray = net.take()
         if hops or stray:
           out.fail("stray-emission", "frames moved while only time passed: %r" % ([(h["sw"], h["in_port"]) for h in hops] + stray[:3],))
+      elif o == "join":
+        # the switches that were not powered so far come up now, their handshakes ordered by the op's schedule
+        if down:
+          bring_up(sorted(down), op.get("sched"))
+          hops, host_rx, stray = net.take()
+          if hops or stray:
+            out.fail("stray-emission", "frames moved while switches connected: %r" % ([(h["sw"], h["in_port"]) for h in hops] + stray[:3],))
       else:
         raise HarnessError("bad op %r" % (op,))
       if len(out.violations) > 12 or st_.get("lost"):
@@ -488,7 +656,7 @@ def run_case(case):
 
     if w.deferred.calls:
       raise HarnessError("deferred sender was used")
-    out.nontrivial = st_["nontrivial"]
+    out.nontrivial = st_["nontrivial"] or bool(st_.get("contested_hop"))
     tot = {"hit": 0, "miss": 0, "stale_hit": 0, "masked": 0, "hold_down": 0}
     for m in models.values():
       for k in tot:
@@ -497,6 +665,16 @@ def run_case(case):
     for k in ("hit", "stale_hit", "masked", "hold_down"):
       if tot[k]:
         out.label("has:" + k.replace("_", "-"))
+    if bu is None:
+      out.label("bringup:one-after-the-other")
+    else:
+      out.label("bringup:scheduled")
+      for k_, lab in (("overlap", "overlapping-handshakes"), ("aborted", "aborted-handshake"), ("dropped_up", "drop-after-up"),
+                      ("eager", "switch-hello-first"), ("late", "late-join")):
+        if bst[k_]:
+          out.label("bringup:" + lab)
+      if st_.get("contested_hop"):
+        out.label("has:frame-through-switch-of-contested-bring-up")
     if st_["moved_sent"]:
       out.label("has:move")
     if st_["gap_after_flow"]:
@@ -568,6 +746,60 @@ def enum_bursts(tier):
                         "f": {"o": "f", "h": 1, "d": ["h", 0], "t": 1, "v": 0, "n": n_}}]}
 
 
+# --------------------------------------------------------------------------- exhaustive bring-up schedules
+
+def _probe_case(n, sched, late=None, tail=None):
+  """A chain of n switches, one host on the first and one on the last switch, a short conversation that crosses
+  every switch: broadcast, reply to the learned address, answer to the reply."""
+  nports = 4
+  edge = n * nports - 2 * (n - 1)
+  ops = [{"o": "f", "h": 0, "d": ["b"], "t": 2, "v": 0, "n": 18},
+         {"o": "f", "h": 1, "d": ["h", 0], "t": 1, "v": 0, "n": 40},
+         {"o": "f", "h": 0, "d": ["h", 1], "t": 1, "v": 0, "n": 40}]
+  return {"k": "hist", "transparent": False, "pool": 100, "msl": 128, "parents": list(range(n - 1)), "nports": nports,
+          "hosts": [0, edge - 2], "bringup": {"sched": sched, "late": late or []}, "ops": (tail or []) + ops}
+
+
+def _interleavings(a, b):
+  """All orders of a steps of connection 0 and b steps of connection 1."""
+  for pos in itertools.combinations(range(a + b), a):
+    pos = set(pos)
+    yield [["step", 0 if i in pos else 1] for i in range(a + b)]
+
+
+HS_STEPS = 7     # attach + three round trips (HELLO, FEATURES, SET_CONFIG+BARRIER), counted in half-turns
+
+
+def enum_bringup(tier):
+  """(a) two switches: every interleaving of the half-turns of their two handshakes;
+  (b) one or two switches: one handshake advanced a half-turns, the other b, then none / either / both connections
+      drop, c more half-turns, the rest completed by the runner; the switch says HELLO first or waits for the controller's;
+  (c) three switches: every sequence of at most 3 (4) of {connect i, one select round over all, drop i};
+  (d) two of three switches join late, after traffic, with interleaved handshakes."""
+  eagers = [0] if tier == "quick" else [0, 1]
+  for e in eagers:
+    head = [["att", 0, e], ["att", 1, e]] if e else []
+    for sch in _interleavings(HS_STEPS - (1 if e else 0), HS_STEPS - (1 if e else 0)):
+      yield _probe_case(2, head + sch)
+  for e in (0, 1):
+    for a in range(0, HS_STEPS + 1):
+      for c in range(0, 4):
+        yield _probe_case(1, ([["att", 0, e]] + [["step", 0]] * (a - 1) if a else []) + [["drop", 0]] + [["step", 0]] * c)
+      for b in range(0, HS_STEPS + 1):
+        pre = ([["att", 0, e]] + [["step", 0]] * (a - 1) if a else []) + ([["att", 1, e]] + [["step", 1]] * (b - 1) if b else [])
+        for ev in ([], [["drop", 0]], [["drop", 1]], [["drop", 0], ["drop", 1]]):
+          for c in range(0, 4):
+            yield _probe_case(2, pre + ev + [["step", 0]] * c)
+  alpha = [["att", 0, 0], ["att", 1, 1], ["att", 2, 0], ["turn"], ["drop", 0], ["drop", 1], ["drop", 2]]
+  for L_ in range(1, (3 if tier == "quick" else 4) + 1):
+    for seq in itertools.product(alpha, repeat=L_):
+      yield _probe_case(3, [list(x) for x in seq])
+  first = [{"o": "f", "h": 0, "d": ["b"], "t": 2, "v": 0, "n": 18}]
+  for late in ([0, 1, 1], [1, 0, 1], [1, 1, 0]):
+    for sch in _interleavings(3, 3):
+      yield dict(_probe_case(3, [], late=late, tail=first + [{"o": "join", "sched": sch}]))
+
+
 # --------------------------------------------------------------------------- Hypothesis histories
 
 def _dest(nh, focused):
@@ -637,19 +869,42 @@ def _history(draw, maxops):
   # Hypothesis' lists are short on average; ask for the length first so that long histories are common
   ln = draw(st.sampled_from([6, 12, 25, 50, 100, 200]).filter(lambda x: x <= maxops) if maxops >= 6 else st.just(maxops))
   ops = draw(st.lists(op, min_size=max(1, ln // 2), max_size=ln))
-  return {"k": "hist",
+  case = {"k": "hist",
           "transparent": draw(st.booleans()),
           "pool": draw(st.sampled_from(POOLS)),
           "msl": draw(st.sampled_from(MSL)),
           "parents": parents, "nports": nports, "hosts": hosts,
           "ops": ops}
+  # how the switches come into service: one after the other (the field is absent), or by a schedule of connection
+  # attempts, byte movements and drops that interleaves their handshakes; some switches may join after traffic
+  if draw(st.sampled_from([True, True, False] if n > 1 else [True, False, False, False])):
+    late = draw(st.lists(st.sampled_from([0, 0, 0, 1]), min_size=n, max_size=n)) if n > 1 else [0]
+    case["bringup"] = {"sched": draw(_sched(n)), "late": late}
+    if any(late):
+      k = draw(st.integers(0, min(len(ops), 12)))
+      case["ops"] = ops[:k] + [{"o": "join", "sched": draw(_sched(n))}] + ops[k:]
+  return case
+
+
+def _sched(n):
+  i = st.integers(0, n - 1)
+  step = st.tuples(st.just("step"), i).map(list)
+  s_ = st.one_of(step, step, step, step, step, step,
+                 st.tuples(st.just("att"), i, st.integers(0, 1)).map(list),
+                 st.tuples(st.just("att"), i, st.integers(0, 1)).map(list),
+                 st.just(["turn"]),
+                 st.tuples(st.just("drop"), i).map(list),
+                 st.tuples(st.sampled_from(["c2s", "s2c"]), i).map(list))
+  return st.lists(s_, max_size=24)
 
 
 def plan(tier):
   if tier == "quick":
     return [Enum("short-histories", lambda: enum_short("quick"), shards=16),
             Enum("big-bursts", lambda: enum_bursts("quick"), shards=16),
+            Enum("bringup-schedules", lambda: enum_bringup("quick"), shards=16),
             Hyp("histories", lambda: _history(60), examples=2400, shards=16)]
   return [Enum("short-histories", lambda: enum_short("thorough"), shards=16),
           Enum("big-bursts", lambda: enum_bursts("thorough"), shards=16),
+          Enum("bringup-schedules", lambda: enum_bringup("thorough"), shards=16),
           Hyp("histories", lambda: _history(200), examples=40000, shards=16)]
